@@ -69,7 +69,9 @@ Definition cycle_model (c : cval) : option (option (list cval)) :=   (* None: ba
   | _ => None
   end.
 
-(* cycles that are not modelled here carry their own verdict: (ok detail) *)
+(* cycles that are not modelled here carry their own verdict: (ok detail ...) — kinds 5..9 and the
+   pool-heavy kinds 10 (pooled ReaderSkipDecoder with big values), 11/12 (readers whose slices are all
+   retained until Release) with their in-goroutine co-tenant of the mcache pool *)
 Definition cycle_selfok (c out : cval) : bool :=
   match c with
   | L (I kind :: _) =>
